@@ -155,6 +155,9 @@ def rtx_case(draw, tier="quick"):
     c["rtx_pt"] = draw(st.integers(0, 127))
     c["rtx_seq"] = draw(U16)
     c["rtx_ssrc"] = draw(U32)
+    # the retransmission may itself be padded (probing, padded retransmissions as browsers send them); the padding of an RTP
+    # packet carries nothing, so the original's own padding is left out of the comparison
+    c["rtx_padding"] = draw(st.sampled_from([0, 0, 1, 3, 4, 255]))
     return c
 
 
@@ -166,14 +169,16 @@ def run_rtx(case: dict) -> Outcome:
         return Outcome("RTX packet does not carry the RTX pt/seq/ssrc", "rtx-header", True)
     # over the wire
     try:
+        rtx.padding_size = case.get("rtx_padding", 0)
         wire = R.RtpPacket.parse(rtx.serialize(m), m)
         back = R.unwrap_rtx(wire, payload_type=p.payload_type, ssrc=p.ssrc)
     except Exception as exc:
         return Outcome(f"rtx wire round trip raised {exc!r}", "rtx-raised:" + type(exc).__name__, True)
+    back.padding_size = p.padding_size
     err = cmp_rtp(p, back, expected_ext(case))
     if err:
         return Outcome("unwrap(wrap(p)) != p: " + err, "rtx-field:" + err.split(":")[0], True)
-    return Outcome(None, None, True, ("rtx",))
+    return Outcome(None, None, True, ("rtx", "rtx-padded") if case.get("rtx_padding") else ("rtx",))
 
 
 # --- RTCP ------------------------------------------------------------------------
